@@ -301,6 +301,11 @@ def cli_cases(tier):
     for i, (family, pol, peer, fmt) in enumerate(c for c in out if c[3] == 'json'):
         if i % 3 == 0:
             more.append((family, pol, peer, ('json-l-warn', 'json-l-fail', 'json-v')[(i // 3) % 3]))
+        if i % 2 == 1 or pol.get('larger') or pol.get('subset'):
+            more.append((family, pol, peer, 'json-T'))
+    for i, (family, pol, peer, fmt) in enumerate(c for c in out if c[3] == 'text'):
+        if i % 4 == 0 or pol.get('larger'):
+            more.append((family, pol, peer, 'text-T'))
     return out + more
 
 
@@ -440,7 +445,8 @@ def multi_cert_cases():
 
 
 # the verdict document is the same whatever output options accompany -j
-JSON_OPTS = {'json': ['-j'], 'json-l-warn': ['-jj', '-l', 'warn'], 'json-l-fail': ['-j', '-l', 'fail'], 'json-v': ['-jj', '-v']}
+JSON_OPTS = {'json': ['-j'], 'json-l-warn': ['-jj', '-l', 'warn'], 'json-l-fail': ['-j', '-l', 'fail'], 'json-v': ['-jj', '-v'], 'json-T': ['-j']}
+# '...-T': the same audit through the multi-target path (a targets file with this one entry): the worker gets a COPY of the configuration
 
 
 def work_cli(chunk, st):
@@ -465,7 +471,7 @@ def work_cli(chunk, st):
             pass
         srv = P.Server(kex=kexl, key=peer['key'], enc=peer['ciphers'], mac=peer['macs'], banner=peer['banner'].encode(),
                        comp=peer['compressions'], host_keys=hk, gex=gex)
-        res = H.audit(srv, opts=['-n', '--skip-rate-test', '-P', path] + JSON_OPTS.get(fmt, []), faults=peer.get('_faults'))
+        res = H.audit(srv, opts=['-n', '--skip-rate-test', '-P', path] + JSON_OPTS.get(fmt, []), faults=peer.get('_faults'), via_targets_file=fmt.endswith('-T'))
         peer = {k: v for k, v in peer.items() if k != '_faults'}
         # what the tool really measured is unknown to us for sizes, so take the model's verdict from the requested peer
         refp = ref_peer(peer)
@@ -481,7 +487,9 @@ def work_cli(chunk, st):
         if fmt in JSON_OPTS:
             try:
                 doc = json.loads(res.stdout)
-            except ValueError:
+                if fmt.endswith('-T'):
+                    doc = doc[0]
+            except (ValueError, IndexError, KeyError, TypeError):
                 st.violation('cli:json-unparseable', {'policy': pol, 'peer': peer, 'stdout': res.stdout[:300]})
                 continue
             got = set((e['mismatched_field'], tuple(e['expected_required']), tuple(e['expected_optional']), tuple(e['actual'])) for e in doc['errors'])
